@@ -240,6 +240,7 @@ def flatten(F, inline_ids):
             continue
         nd, inl = inline_dict(F, b.d, b.crate, inline_ids, cache)
         if inl:
+            nd, _ = thread_dict(nd)
             nb = Body(G, b.crate, nd)
             nb.unit, nb.unit_is_test = b.unit, b.unit_is_test
             nb.inlined = inl
@@ -275,3 +276,175 @@ def flatten(F, inline_ids):
                 if t in G.bodies:
                     G._children[t].append(b)
     return G, report
+
+
+# ------------------------------------------------------------------------------------------------------------
+# tail duplication ("threading"): after inlining a helper that returns Result / Option / bool, the helper's exits
+# (`_0 = Err(..)` on one path, `_0 = Ok(..)` on another) merge before the caller's `match` on the result. A
+# path-insensitive reader then sees paths "Ok was produced, Err arm taken". When every definition of the tested local
+# has a known variant / constant, the blocks between each definition and the switch are duplicated per definition and
+# the switch in the copy is replaced by the jump it must take. Only regions without calls are duplicated (drops, gotos,
+# assignments), so no call site is ever duplicated.
+# ------------------------------------------------------------------------------------------------------------
+
+def _known_value_of_def(d, stmt_or_term):
+    """discriminant / bool value that a definition gives to a whole local, or None"""
+    if stmt_or_term.get('k') == 'a':
+        rv = stmt_or_term['rv']
+        if rv['k'] == 'aggr' and 'vi' in rv['ak'] and rv['ak'].get('adt'):
+            return ('variant', rv['ak']['vi'])
+        if rv['k'] == 'use' and 'k' in rv['op'] and rv['op']['k'].get('ty') == 'bool':
+            return ('bool', 1 if rv['op']['k'].get('int') == '1' else 0)
+        return None
+    if stmt_or_term.get('k') == 'call' and 'fn' in stmt_or_term['f']:
+        fn = stmt_or_term['f']['fn']
+        if fn.get('name') == 'from_residual' and 'FromResidual' in (fn.get('trait') or fn.get('path') or ''):
+            ty = stmt_or_term.get('dest_ty', '')
+            if ty.startswith('std::result::Result') or ty.startswith('core::result::Result'):
+                return ('variant', 1)
+            if ty.startswith('std::option::Option') or ty.startswith('core::option::Option'):
+                return ('variant', 0)
+    return None
+
+
+def thread_dict(d, max_region=16):
+    blocks = d['blocks']
+    n0 = len(blocks)
+    # whole-local definitions
+    defs = defaultdict(list)  # local -> [(bb, 'stmt', si) | (bb, 'term', None)]
+    for bb, blk in enumerate(blocks):
+        if blk['cleanup']:
+            continue
+        for si, s in enumerate(blk['stmts']):
+            if s['k'] == 'a' and not s['p']['p']:
+                defs[s['p']['l']].append((bb, 'stmt', si))
+        t = blk['term']
+        if t['k'] == 'call' and not t['dest']['p']:
+            defs[t['dest']['l']].append((bb, 'term', None))
+
+    def succs(blk):
+        t = blk['term']
+        k = t['k']
+        if k == 'goto':
+            return [t['t']]
+        if k == 'switch':
+            return [tg for _, tg in t['arms']] + [t['otherwise']]
+        if k in ('drop', 'assert'):
+            return [t['t']]
+        if k == 'call':
+            return [t['t']] if isinstance(t.get('t'), int) and t['t'] >= 0 else []
+        return []
+
+    def copy_chain(x):
+        """x = use(move y) with y a whole local defined once: the tested value is y's"""
+        ds = defs.get(x, [])
+        return ds
+
+    changed = False
+    nd = None
+    for T in range(n0):
+        blk = blocks[T]
+        if blk['cleanup'] or blk['term']['k'] != 'switch':
+            continue
+        op = blk['term']['op']
+        key = 'm' if 'm' in op else ('c' if 'c' in op else None)
+        if key is None or op[key]['p']:
+            continue
+        dl = op[key]['l']
+        # the switch operand: a bool local, or `dl = discr(x)` computed in T itself
+        x, kind = None, None
+        dd = [(bb, k, si) for bb, k, si in defs.get(dl, [])]
+        if len(dd) == 1 and dd[0][0] == T and dd[0][1] == 'stmt':
+            rv = blk['stmts'][dd[0][2]]['rv']
+            if rv['k'] == 'discr' and not rv['pl']['p']:
+                x, kind = rv['pl']['l'], 'variant'
+                if any(s['k'] != 'a' or s['p']['l'] != dl for s in blk['stmts']):
+                    x = None  # T computes more than the discriminant
+        elif len(dd) >= 2 and not blk['stmts'] and d['locals'][dl]['ty'] == 'bool':
+            x, kind = dl, 'bool'
+        if x is None:
+            continue
+        # follow a copy made on the way (`x = move y` right before): handled by treating y's defs when x has one copy-def
+        xdefs = defs.get(x, [])
+        if len(xdefs) == 1 and xdefs[0][1] == 'stmt':
+            s = blocks[xdefs[0][0]]['stmts'][xdefs[0][2]]
+            if s['rv']['k'] == 'use' and ('m' in s['rv']['op'] or 'c' in s['rv']['op']):
+                o = s['rv']['op'].get('m') or s['rv']['op'].get('c')
+                if not o['p'] and len(defs.get(o['l'], [])) >= 2:
+                    # values come from y; the copy block lies inside the region
+                    xdefs = defs[o['l']]
+        if len(xdefs) < 2:
+            continue
+        vals = []
+        for bb, k, si in xdefs:
+            v = _known_value_of_def(d, blocks[bb]['stmts'][si] if k == 'stmt' else blocks[bb]['term'])
+            vals.append(v)
+        if any(v is None or v[0] != kind for v in vals) or len({v[1] for v in vals}) < 2:
+            continue
+        defblocks = {bb for bb, _, _ in xdefs}
+        if T in defblocks:
+            continue
+        plans = []
+        ok = True
+        for (bb, k, si), v in zip(xdefs, vals):
+            # a later definition of x in the same block wins; only the last one per block counts
+            if any(b2 == bb and ((k2 == 'term') or (k == 'stmt' and k2 == 'stmt' and s2 > si)) and (b2, k2, s2) != (bb, k, si) for b2, k2, s2 in xdefs):
+                continue
+            region, work = [], list(succs(blocks[bb]))
+            seen = set()
+            reaches_T = False
+            while work:
+                y = work.pop()
+                if y == T:
+                    reaches_T = True
+                    continue
+                if y in seen:
+                    continue
+                seen.add(y)
+                if y in defblocks or blocks[y]['cleanup'] or blocks[y]['term']['k'] in ('call', 'return', 'unreachable', 'resume') or len(seen) > max_region:
+                    ok = False
+                    break
+                region.append(y)
+                work.extend(succs(blocks[y]))
+            if not ok:
+                break
+            if not reaches_T:
+                continue
+            arm = None
+            for val_, tg in blk['term']['arms']:
+                if int(val_) == v[1]:
+                    arm = tg
+            if arm is None:
+                arm = blk['term']['otherwise']
+            plans.append((bb, region, arm))
+        if not ok or not plans:
+            continue
+        if nd is None:
+            nd = dict(d)
+            nd['blocks'] = [dict(b) for b in blocks]
+            blocks = nd['blocks']
+        for bb, region, arm in plans:
+            base = len(blocks)
+            m = {y: base + i for i, y in enumerate(region)}
+            m[T] = base + len(region)
+
+            def retarget(t):
+                t = copy.deepcopy(t)
+                for kk in ('t', 'otherwise'):
+                    if kk in t and isinstance(t[kk], int) and t[kk] in m:
+                        t[kk] = m[t[kk]]
+                if 'arms' in t:
+                    t['arms'] = [[v_, m.get(tg, tg)] for v_, tg in t['arms']]
+                return t
+            for y in region:
+                nb = dict(blocks[y])
+                nb['term'] = retarget(blocks[y]['term'])
+                nb['dup_of'] = y
+                blocks.append(nb)
+            tb = dict(blocks[T])
+            tb['term'] = {'k': 'goto', 't': arm}
+            tb['dup_of'] = T
+            blocks.append(tb)
+            blocks[bb] = dict(blocks[bb], term=retarget(blocks[bb]['term']))
+        changed = True
+    return (nd if changed else d), changed
